@@ -101,7 +101,10 @@ pub fn main_loop<F: Fn(&[&str]) -> String + std::panic::RefUnwindSafe>(f: F) {
         std::thread::spawn(move || loop {
             std::thread::sleep(std::time::Duration::from_millis(100));
             let st = tick.load(Ordering::SeqCst);
-            if st != 0 && (t0.elapsed().as_millis() as u64) > st + limit_ms {
+            // claim the case atomically: if the main thread finished it in the meantime
+            // (it resets `tick` with a compare-exchange too) nothing is written here
+            if st != 0 && st != u64::MAX && (t0.elapsed().as_millis() as u64) > st + limit_ms
+                && tick.compare_exchange(st, u64::MAX, Ordering::SeqCst, Ordering::SeqCst).is_ok() {
                 // stdout is unbuffered below (we flush after every case), so this is the next line
                 unsafe {
                     write(result_fd, b"HANG\n".as_ptr(), 5);
@@ -121,9 +124,15 @@ pub fn main_loop<F: Fn(&[&str]) -> String + std::panic::RefUnwindSafe>(f: F) {
         }
         let l = l.unwrap();
         let fields: Vec<&str> = l.split('\t').collect();
-        tick.store(t0.elapsed().as_millis() as u64 + 1, Ordering::SeqCst);
+        let started = t0.elapsed().as_millis() as u64 + 1;
+        tick.store(started, Ordering::SeqCst);
         let r = std::panic::catch_unwind(|| f(&fields));
-        tick.store(0, Ordering::SeqCst);
+        if tick.compare_exchange(started, 0, Ordering::SeqCst, Ordering::SeqCst).is_err() {
+            // the watchdog has claimed this case and is writing HANG: do not write a second answer
+            loop {
+                std::thread::sleep(std::time::Duration::from_millis(50));
+            }
+        }
         match r {
             Ok(s) => writeln!(out, "{}", s.replace('\n', "%0A")).unwrap(),
             Err(_) => writeln!(out, "PANIC").unwrap(),
